@@ -561,6 +561,19 @@ func (f *front) serve(ctx context.Context, addr string, req *tikvrpc.Request, ti
 		f.w.sim.Count("fault.epoch-not-match-all-regions")
 		return tikvrpc.GenRegionErrorResp(req, &errorpb.Error{Message: "sim: epoch not match, every region listed", EpochNotMatch: &errorpb.EpochNotMatch{CurrentRegions: cur}})
 	}
+	if f.w.sc.EpochAllRate > 0 && req.Type != tikvrpc.CmdSplitRegion && req.Type != tikvrpc.CmdUnsafeDestroyRange && f.h.Float(fmt.Sprintf("kni%d", f.n)) < f.w.sc.EpochAllRate/2 {
+		// a KeyNotInRegion answer (TiKV sends it when the addressed region does not hold the key
+		// although the epoch matched): it names the request's key and the region's bounds
+		var hits []fieldHit
+		walk(reflect.ValueOf(req.Req), "", &hits, map[string]bool{})
+		region, _ := f.w.cluster.GetRegion(req.Context.GetRegionId())
+		for _, h := range hits {
+			if !h.empty && region != nil && inRange(mocktikv.MvccKey(region.StartKey).Raw(), mocktikv.MvccKey(region.EndKey).Raw(), h.val) {
+				f.w.sim.Count("fault.key-not-in-region")
+				return tikvrpc.GenRegionErrorResp(req, &errorpb.Error{Message: "sim: key not in region", KeyNotInRegion: &errorpb.KeyNotInRegion{Key: h.val, RegionId: region.Id, StartKey: region.StartKey, EndKey: region.EndKey}})
+			}
+		}
+	}
 	if req.Type == tikvrpc.CmdSplitRegion {
 		return f.serveSplit(addr, req)
 	}
